@@ -67,6 +67,10 @@ Definition qrun_op (k : fkb) (qk : list qobj) (roots : list nat) (w : qworld_sta
           let w' := (fst r, setq (snd w) i st) in
           Some (w', L [eq_ (snd r); eqworld qk nb w'])
       end
+  | L [A 7] =>     (* Model.reset_bounds(): every base object back to its data, every quantifier back to its world *)
+      let reg := postorder (fshadow k) roots in
+      let w' := (f_reset_bounds (seq 0 nb) (fst w), map (fun qs => q_reset (fst qs) (snd qs)) (combine qk (snd w))) in
+      Some (w', L [eqworld qk nb w'])
   | L [A 15; oi] =>     (* reset_bounds() of one base object *)
       let i := dnat oi in
       let w' := (set_tab (fst w) i (t_reset (ftab (fst w) i)), snd w) in
